@@ -62,7 +62,7 @@ def run(chk) -> None:
     )
     chk.trusted = ["CPython ast", "scipy KDTree.query_pairs returns every pair within the radius exactly once"]
     chk.assumptions = ["float distance arithmetic is not decided", "atom typing by first letter of the name as coded (C/N/O/P)"]
-    chk.robust |= {"atom-types", "molprobity-term", "search-radius", "distance-region", "option-extra-filter", "optional-truthiness", "cli-arguments", "accumulator", "csv-metadata-arg"}
+    chk.robust |= {"atom-types", "molprobity-term", "search-radius", "distance-region", "option-extra-filter", "optional-truthiness", "cli-arguments", "accumulator", "csv-metadata-arg", "collection"}
     radii = atom_types(chk)
     at = repo.cls(M, "AtomType")
     chk.expect(set(radii) == {"C", "N", "O", "P"} and all(isinstance(v, float) and v > 0 for v in radii.values()), "atom-types", f"src/rnapolis/clashfinder.py:{at.lineno} AtomType", f"four atom types with radii {radii}", f"atom types/radii are not total over C, N, O, P: {radii}", f"{M}:AtomType:radii", found=radii)
@@ -166,19 +166,78 @@ def run(chk) -> None:
         chk.expect(len(d) == 1 and norm(d[0].value) == w, "pair-roles", fi.site(loop), f"{nm} = {w}", f"{nm} is not {w}", K(fi, f"role:{nm}"))
     rr = [s for s in loop.body if isinstance(s, ast.Assign) and flat(s) == flat("ri, rj = reference_residues[i], reference_residues[j]")]
     chk.expect(len(rr) == 1, "pair-roles", fi.site(loop), "ri, rj = residues of the two query indices", "ri/rj are not reference_residues[i], reference_residues[j]", K(fi, "role:residues"))
-    # collection
-    rl = [l for l in fi.node.body if isinstance(l, ast.For) and norm(l.iter) == "residues"]
-    ok = False
-    if len(rl) == 1 and len(rl[0].body) == 1 and isinstance(rl[0].body[0], ast.If):
-        i0 = rl[0].body[0]
-        ok = norm(i0.test) in ("nucleic_acid_only is True and residue.is_nucleotide or nucleic_acid_only is False",) and not i0.orelse
-        if ok and len(i0.body) == 1 and isinstance(i0.body[0], ast.For) and norm(i0.body[0].iter) == "residue.atoms":
-            inner = i0.body[0].body
-            ok = len(inner) == 1 and isinstance(inner[0], ast.If) and flat(inner[0].test) in (flat("any([atom_type.matches(atom) for atom_type in AtomType])"), flat("any(atom_type.matches(atom) for atom_type in AtomType)"))
-            ok = ok and sorted(norm(s) for s in inner[0].body) == ["coordinates.append(atom.coordinates)", "reference_atoms.append(atom)", "reference_residues.append(residue)"]
+    # collection: which residues' atoms are considered, read path by path
+    from sa import paths as PT
+
+    rl = [l for l in fi.node.body if isinstance(l, ast.For) and norm(l.iter) == "residues" and isinstance(l.target, ast.Name)]
+    if len(rl) != 1:
+        chk.error("collection", fi.where, "loop over the residues not found")
+    else:
+        r = rl[0].target.id
+
+        def holds(text: str, val: bool, nao: bool, nuc: bool):
+            table = {
+                "nucleic_acid_only is True": nao is True, "nucleic_acid_only is False": nao is False, "nucleic_acid_only is not True": nao is not True,
+                "nucleic_acid_only is not False": nao is not False, "nucleic_acid_only": bool(nao), "nucleic_acid_only == True": nao == True, "nucleic_acid_only == False": nao == False,
+                f"{r}.is_nucleotide": nuc, f"{r}.is_nucleotide is True": nuc is True, f"{r}.is_nucleotide is False": nuc is False,
+            }
+            if text not in table:
+                return None
+            return table[text] == val
+
+        bad, unknown = [], []
+        atom_loops = set()
+        for events, exit_ in PT.paths(rl[0].body):
+            reached = [ev[1] for ev in events if ev[0] == "loop" and isinstance(ev[1], ast.For) and norm(ev[1].iter) == f"{r}.atoms"]
+            for lp in reached:
+                atom_loops.add(lp)
+            stray = [ev[1] for ev in events if ev[0] == "stmt" and any(isinstance(c2, ast.Call) and isinstance(c2.func, ast.Attribute) and c2.func.attr == "append" for c2 in ast.walk(ev[1]))]
+            if stray:
+                unknown.append(f"append outside the atom loop: {norm(stray[0])[:50]}")
+            for nao in (True, False):
+                for nuc in (True, False):
+                    cons = [holds(ev[1], ev[2], nao, nuc) for ev in events if ev[0] == "test"]
+                    if None in cons:
+                        unknown.append([ev[1] for ev in events if ev[0] == "test" and holds(ev[1], ev[2], nao, nuc) is None][0])
+                        continue
+                    if not all(cons):
+                        continue
+                    want_reach = (nao is True and nuc) or nao is False
+                    if bool(reached) != want_reach:
+                        bad.append((nao, nuc, bool(reached)))
+        if unknown:
+            chk.error("collection", fi.site(rl[0]), f"residue selection not understood: {unknown[0]}")
+        elif bad:
+            nao, nuc, got = bad[0]
+            chk.violation("collection", fi.site(rl[0]), f"with nucleic_acid_only={nao} a residue that is {'a' if nuc else 'not a'} nucleotide is {'considered' if got else 'left out'}: atoms considered must be those of all residues, or of nucleotides only when requested", K(fi, "collection"), found=[list(b) for b in bad])
+        elif len(atom_loops) != 1:
+            chk.error("collection", fi.site(rl[0]), f"{len(atom_loops)} loops over the atoms of a residue")
         else:
-            ok = False
-    chk.expect(ok, "collection", fi.where, "atoms considered = atoms matching one of the four types, of all residues (or nucleotides only when requested), registered in parallel lists", "the atom collection rule changed (option nucleic_acid_only / type match / parallel lists)", K(fi, "collection"))
+            chk.ok("collection", fi.site(rl[0]), "atoms considered = atoms of all residues, or of nucleotides only when nucleic_acid_only is set (4 option/residue cases evaluated over all paths)")
+            al = next(iter(atom_loops))
+            a = norm(al.target)
+            bad2, unk2 = [], []
+            MATCH = (flat(f"any([atom_type.matches({a}) for atom_type in AtomType])"), flat(f"any(atom_type.matches({a}) for atom_type in AtomType)"), flat(f"any((atom_type.matches({a}) for atom_type in AtomType))"))
+            for events, exit_ in PT.paths(al.body):
+                dec = None
+                for ev in events:
+                    if ev[0] == "test":
+                        if flat(ev[1]) in MATCH:
+                            dec = ev[2]
+                        else:
+                            unk2.append(ev[1])
+                apps = sorted(norm(c2) for ev in events if ev[0] == "stmt" for c2 in ast.walk(ev[1]) if isinstance(c2, ast.Call) and isinstance(c2.func, ast.Attribute) and c2.func.attr == "append")
+                want_apps = sorted([f"coordinates.append({a}.coordinates)", f"reference_atoms.append({a})", f"reference_residues.append({r})"])
+                if dec is True and apps != want_apps:
+                    bad2.append(f"an atom of one of the four types is registered as {apps}, not in the three parallel lists")
+                if dec is False and apps:
+                    bad2.append("an atom of no known type is registered")
+                if dec is None and apps:
+                    bad2.append("atoms are registered without the type test")
+            if unk2:
+                chk.error("collection", fi.site(al), f"atom selection not understood: {unk2[0][:60]}")
+            else:
+                chk.expect(not bad2, "collection", fi.site(al), "an atom is registered (residue, atom, coordinates in parallel) iff it matches one of the four types", bad2[0] if bad2 else "", K(fi, "collection-atoms"))
     mt = repo.func(M, "AtomType.matches")
     chk.note_function(mt)
     chk.expect([norm(s) for s in mt.node.body] == ["return atom.name.strip().startswith(self.value)"], "collection", mt.where, "an atom matches a type when its name starts with the type letter", "AtomType.matches changed", K(mt, "matches"))
@@ -217,8 +276,13 @@ def run(chk) -> None:
     for s in ast.walk(mn.node):
         if isinstance(s, ast.Assign) and isinstance(s.targets[0], ast.Subscript) and isinstance(s.value, ast.Call) and astq.callee_name(s.value) == "max":
             tgt = s.targets[0]
-            gets = [c2 for c2 in ast.walk(s.value) if isinstance(c2, ast.Call) and astq.callee_name(c2) == "get"]
-            ok = len(gets) == 1 and norm(gets[0].func.value) == norm(tgt.value) and flat(gets[0].args[0]) == flat(tgt.slice)
+            minl = Inliner(mn.node)
+            val = minl.inline(s.value, s, stop=("ri", "rj", "occupancy"))
+            gets = [c2 for c2 in ast.walk(val) if isinstance(c2, ast.Call) and astq.callee_name(c2) == "get"]
+            ok = len(gets) == 1 and norm(gets[0].func.value) == norm(tgt.value) and flat(gets[0].args[0]) == flat(minl.inline(tgt.slice, s, stop=("ri", "rj")))
+            if not gets:
+                chk.error("accumulator", mn.site(s), f"running maximum `{norm(s)[:70]}` not understood")
+                continue
             chk.expect(ok, "accumulator", mn.site(s), f"`{norm(tgt)[:50]}` is the running maximum of its own previous value", f"running maximum `{norm(tgt)[:50]}` is computed from `{norm(gets[0])[:60] if gets else None}`: another container or key than the one it updates", K(mn, f"acc:{norm(tgt.value)}"))
     chk.floor("accumulator", 2)
     # printed and CSV loops over the same containers with the same sort
@@ -226,9 +290,41 @@ def run(chk) -> None:
     mids = [l for l in ast.walk(mn.node) if isinstance(l, ast.For) and flat(l.iter) == flat("clashing_chains[(ci, cj)]")]
     inner = [l for l in ast.walk(mn.node) if isinstance(l, ast.For) and flat(l.iter) == flat("sorted(clashing_chains[(ci, cj)][(ri, rj)])")]
     chk.expect(len(outer) == 2 and len(mids) == 2 and len(inner) == 2, "report-loops", mn.where, "the printed report and the CSV iterate the same containers in the same order", "the printed report and the CSV no longer iterate the same containers with the same sort", K(mn, "loops"), found=[len(outer), len(mids), len(inner)])
-    grp = [s for s in ast.walk(mn.node) if isinstance(s, ast.Expr) and flat(s.value) == flat("clashing_chains[chain_key][residue_key].add((ai, aj, occupancy))")]
-    keys = {norm(s.targets[0]): flat(s.value) for s in ast.walk(mn.node) if isinstance(s, ast.Assign) and norm(s.targets[0]) in ("chain_key", "residue_key")}
-    chk.expect(len(grp) == 1 and keys == {"chain_key": "ri.chain,rj.chain", "residue_key": "ri,rj"}, "report-grouping", mn.where, "every clash is filed under (chain pair, residue pair)", "clashes are not filed under ((ri.chain, rj.chain), (ri, rj))", K(mn, "grouping"))
+    minl2 = Inliner(mn.node)
+    adds = [c2 for c2 in ast.walk(mn.node) if isinstance(c2, ast.Call) and isinstance(c2.func, ast.Attribute) and c2.func.attr == "add" and c2.args and flat(c2.args[0]) == flat("(ai, aj, occupancy)")]
+    if len(adds) != 1:
+        chk.error("report-grouping", mn.where, "the statement filing a clash `(ai, aj, occupancy)` not found")
+    else:
+        st = FlowMap(mn.node).stmt_of(adds[0])
+        recv = adds[0].func.value
+        at = st
+        for _ in range(4):  # the receiver is mutated by definition: follow its definitions by hand
+            if isinstance(recv, ast.Name):
+                d = minl2.reaching(recv.id, at)
+                if d is None:
+                    break
+                at = minl2.stmt_of_value(d) or at
+                recv = d
+            elif isinstance(recv, ast.Call) and isinstance(recv.func, ast.Attribute) and isinstance(recv.func.value, ast.Name) and recv.func.value.id != "clashing_chains":
+                d = minl2.reaching(recv.func.value.id, at)
+                if d is None:
+                    break
+                import copy as _copy
+
+                recv = _copy.deepcopy(recv)
+                recv.func.value = d
+            else:
+                break
+        recv = minl2.inline(recv, st, stop=("ri", "rj", "clashing_chains"))
+        CK, RK = flat("(ri.chain, rj.chain)"), flat("(ri, rj)")
+        forms = (flat(f"clashing_chains[(ri.chain, rj.chain)][(ri, rj)]"), flat("clashing_chains.setdefault((ri.chain, rj.chain), {}).setdefault((ri, rj), set())"), flat("clashing_chains.setdefault((ri.chain, rj.chain), dict()).setdefault((ri, rj), set())"))
+        t = flat(recv)
+        if t in forms:
+            chk.ok("report-grouping", mn.site(adds[0]), "every clash is filed under (chain pair, residue pair)")
+        elif "clashing_chains" in t and (flat("(rj.chain, ri.chain)") in t or flat("(rj, ri)") in t or t.count(CK) == 0 or t.count(RK) == 0):
+            chk.violation("report-grouping", mn.site(adds[0]), f"a clash is filed under `{norm(recv)[:90]}`, not under ((ri.chain, rj.chain), (ri, rj))", K(mn, "grouping"), found=norm(recv))
+        else:
+            chk.error("report-grouping", mn.site(adds[0]), f"container `{norm(recv)[:90]}` receiving the clash not understood")
     for rule, n in (("search-radius", 1), ("option-filter", 2), ("distance-threshold", 2), ("cli-arguments", 2)):
         chk.floor(rule, n)
 
